@@ -2,7 +2,7 @@
 PROPS["C05"] = {
     "level": "other",
     "explanation": "What a function contract can say about hidden history is a FRAME and a reset postcondition. (1) mmd_engine_reset (unmodified mmd.c) is proved, for stacks of any size (loop contracts on the six pop-and-free loops), to empty all ten engine stacks and clear root/asset_hash while assigning nothing else -- the postcondition lists what survives a reset (dstr, extensions, language, quotes_lang, pairings, and the three state fields allow_meta, recurse_depth, random_seed_base_labels) and DFCC's assigns check shows that no static object is written. (2) Static-storage frame: mmd_print_char_html (obfuscate == false) and mmd_print_localized_char_html are proved to assign only the output string (real rng.c linked); the obfuscating path draws from a process-global generator (rng.c); since the repair recorded in known_findings.txt (fixed: property=C05) every export restarts that generator with its default seed, and unit c05_export_restarts_prng proves that scratch_pad_new does so exactly once for every engine state (the generator-level fact that ran_start(314159) leaves a state that does not depend on the prior one is the 2-safety unit c05_ran_start_determines_state: two independent copies of rng.c started in arbitrary states agree on every ran_x[k] and on the draw pointer). Before the repair the determinism unit for the obfuscating path failed and was reproduced on the real library (three calls of mmd_string_convert on an e-mail autolink gave three different byte strings). A static fact regenerates the inventory of non-const static objects and their writers and compares it with a reviewed allow list. (3) Source unchanged: bounded header units (shared with C10) assert the caller's source bytes are untouched by process_header_to_links/label_from_header and their callees; token_trim_* frames are C15's. (3b) the engine-lifetime nesting counter e->recurse_depth is restored by mmd_parse_token_chain on every path (unit c07_guard_parse_chain, shared with C07), and every parse starts from a reset engine (c05_parse_resets_first). (4) Engine untouched by the export's metadata pass: process_metadata_stack (unit c20_process_metadata_stack_2, shared with C20) is enforced with a frame of six scratch-pad fields, so a per-export setting (language, quotes, base header level) cannot leak into the engine object that a later conversion reuses. Level 'other': the reset and frame units are unbounded proofs of single functions, but the property quantifies over conversion histories, which no unit composes.",
-    "slice": "mmd_engine_reset; mmd_print_char_html, mmd_print_localized_char_html, ran_num_next (frames); process_header_to_links/label_from_header/label_from_token/label_from_string/clean_string/link_new (source unchanged, bounded); static-storage inventory of the whole library (fact)",
+    "slice": "mmd_engine_reset; mmd_print_char_html, mmd_print_localized_char_html, ran_num_next (frames); process_header_to_links/label_from_header/label_from_token/label_from_string/clean_string/link_new (source unchanged, bounded); static-storage inventory of the whole library (fact); mmd_tokenize_string (metadata switch re-initialised from the extensions alone); mmd_engine_parse_substring (reset first, requested range); mmd_engine_convert / _to_data / _to_file and mmd_engine_transclusion_manifest frame the engine's text (shared with C06, C13); mmd_engine_convert_opml/itmz_to_text restore it (shared with C14)",
     "not_reached": "byte-identical output of whole conversions across call histories; scratch_pad_new/scratch_pad_free (uthash); the asset hash in mmd_engine_reset when non-empty (uthash table did not get through the solver); rand()/srand() users are only listed by the static fact (they are behind EXT_RANDOM_FOOT/EXT_RANDOM_LABELS)",
     "trusted_base": ["cbmc/goto-cc/goto-instrument 6.11.0 (DFCC instrumentation: file-scope statics are not implicitly assignable; MiniSat2)", "lib/ds_sink.c as the DString specification (C19)", "grep-level parse of goto-instrument --show-symbol-table/--show-goto-functions for the static inventory"],
     "assumptions": ["element destructors (footnote_free, link_free, meta_free, asset_free, token_tree_free) assign nothing reachable from the engine (contracts, not proved here)"],
